@@ -12,8 +12,8 @@ in content to extracting that member's bytes on its own and labelled with the me
 `archive!/member` path.  A corrupt or unsupported member affects only itself.
 
 The theorems are about the models in `S2T/Model/SevenZip.lean` and `S2T/Model/ArchiveLoop.lean`, which are the
-code WITH the four repairs found while proving (fix-7z-folder-pack-offset, fix-7z-empty-file,
-fix-7z-utf16-names, fix-tar-detect-before-magic).  For each repair the previous behaviour is kept in the
+code WITH the repairs found while proving (fix-7z-folder-pack-offset, fix-7z-empty-file, fix-7z-utf16-names,
+fix-tar-detect-before-magic, and — part `C10_Header` — fix-7z-substream-digest-count, fix-7z-attributes-external-byte).  For each repair the previous behaviour is kept in the
 model and a counterexample theorem shows the full statement false for it; the harness replays the same
 witnesses on the real code every run.
 -/
@@ -840,13 +840,6 @@ def Method.spec : Method → S2T.Spec.SevenZipWriter.Method
 private theorem packGroup_coder (e : Enc) (m : Method) (es : List Entry) : (packGroup e m es).coder = coderOf m.spec := by
   cases m <;> rfl
 
-private theorem nodup_of_map {α β : Type} (f : α → β) (l : List α) (h : (l.map f).Nodup) : l.Nodup := by
-  induction l with
-  | nil => simp
-  | cons a l ih =>
-    simp only [List.map_cons, List.nodup_cons] at h ⊢
-    exact ⟨fun ha => h.1 (List.mem_map_of_mem ha), ih h.2⟩
-
 private theorem startHeader_length (crc : Bytes → Nat) (n : Nat) (h : Bytes) : (startHeader crc n h).length = 32 := by
   simp [startHeader, S2T.Spec.SevenZipWriter.startFields, S2T.Spec.SevenZipWriter.magic, le_length]
 
@@ -861,9 +854,9 @@ variable {ρ : Type} (env : Env ρ) (ap : Option Str)
     longer a parameter) followed by the member loop yields exactly the supported visible members, each extracted on
     its own from its own bytes, in archive order.
     Hypotheses that stay explicit: `CodecOk` (stdlib lzma; vacuous for COPY-only layouts), the layout is well formed,
-    no folder CRCs (`hfc`, finding 7z.substream-digests-with-folder-crc), the attributes as the reader takes them
-    (`attrsParsed`: one byte early, finding 7z.attributes-external-byte-not-read) do not flag a non-directory as
-    a directory (`hattr`), distinct member names, size limits. -/
+    no folder CRCs (`hfc`: the layout theorems start from folders without a CRC; the header round trip itself holds
+    with them), a stored attribute of a non-directory does not carry the directory bit 0x10 (`hattr`), distinct
+    member names, size limits. -/
 theorem C10_7z_written_end_to_end (c : Codec) (e : Enc) (hc : CodecOk c e) (crc : Bytes → Nat) (hcrc : ∀ b, crc b < 2 ^ 32)
     (layout : List (Method × List Entry)) (tail : List Entry) (x : Entry → Nat × Nat × Nat) (o : Opts)
     (gs : List Group) (es : List Entry) (L : Layout) (file : Bytes)
@@ -874,7 +867,7 @@ theorem C10_7z_written_end_to_end (c : Codec) (e : Enc) (hc : CodecOk c e) (crc 
     (hlim : env.consts.maxMemorySize ≤ env.consts.maxArchiveFileSize)
     (hm : ∀ l ∈ layout, l.1.wf ∧ streamCount l.2 ≥ 1)
     (ht : ∀ y ∈ tail, y.hasStream = false)
-    (hattr : ∀ i (h : i < es.length), es[i].isDir = false → (attrsParsed o (es.map (specEntry x))).getD i 0 &&& 0x10 = 0)
+    (hattr : ∀ y ∈ es, y.isDir = false → o.attrs = true → (x y).1 &&& 0x10 = 0)
     (hdir : ∀ y ∈ es, y.isDir = true → y.data = [])
     (hn : (es.map (·.name)).Nodup)
     (hsize : file.length ≤ env.consts.max7zFileSize) (hfit : file.length < 2 ^ 63) :
@@ -883,7 +876,6 @@ theorem C10_7z_written_end_to_end (c : Codec) (e : Enc) (hc : CodecOk c e) (crc 
         = (es.filter (sevenKeep env)).flatMap (fun y => alone env ap y.name y.data)
     ∧ (read7z env ap file (parseHeader S2T.Gen.SevenZip.ids fixed crc c) (fun _ => false)
         (fun f r w => extractAll S2T.Gen.SevenZip.ids c f r w)).terminal = none := by
-  have hnd : es.Nodup := nodup_of_map _ _ hn
   have hmgs : (layout.map fun l => (l.1.spec, packGroup e l.1 l.2)).map (·.2) = gs := by
     rw [hgs]; simp [List.map_map, Function.comp_def]
   have hesne : es ≠ [] := by
@@ -897,24 +889,21 @@ theorem C10_7z_written_end_to_end (c : Codec) (e : Enc) (hc : CodecOk c e) (crc 
       cases l.1 <;> simp [h2]
   have hlen : file.length = 32 + (gs.flatMap (·.packed)).length + (writeHeader L).length := by
     rw [hfile]; simp [archive, startHeader_length]; omega
-  have hmix : S2T.SevenZip.mixedWithFolderCrc L = false := by
-    have : L.opts.folderCrc = false := by rw [hL]; exact hfc
-    simp [S2T.SevenZip.mixedWithFolderCrc, this]
-  have hrt := S2T.C10.Header.header_round_trip_partial crc hcrc c L hwf hmix (gs.flatMap (·.packed)) ⟨by omega, by omega⟩
+  have hrt := S2T.C10.Header.header_round_trip crc hcrc c L hwf (gs.flatMap (·.packed)) ⟨by omega, by omega⟩
   have hst := stateOf_layoutOf x (layout.map fun l => (l.1.spec, packGroup e l.1 l.2)) tail o
     (by intro p hp; obtain ⟨l, _, rfl⟩ := List.mem_map.mp hp; exact packGroup_coder e l.1 l.2) ht hfc
-    (by simpa using hne) (by rw [hmgs, ← hes]; exact hesne) (by rw [hmgs, ← hes]; exact hnd)
+    (by simpa using hne) (by rw [hmgs, ← hes]; exact hesne)
   rw [hmgs, ← hes, ← hL] at hst
   rw [hst, ← hfile] at hrt
-  refine C10_7z_end_to_end env ap c e hc layout tail
-    (fun y => (attrsParsed o (es.map (specEntry x))).getD (es.idxOf y) 0)
+  refine C10_7z_end_to_end env ap c e hc layout tail (attrOf x o)
     (startHeader crc (gs.flatMap (·.packed)).length (writeHeader L)) (writeHeader L) 0
     (parseHeader S2T.Gen.SevenZip.ids fixed crc c) gs es file hgs hes (by rw [hfile]; rfl) hlim hm ht
     (by simp [startHeader_length, headerOffset]) ?_ hdir hn hsize hrt
   intro y hy hd
-  have hi := List.idxOf_lt_length_of_mem hy
-  have := hattr (es.idxOf y) hi (by rw [List.getElem_idxOf hi]; exact hd)
-  exact this
+  unfold attrOf
+  split
+  · rename_i ha; exact hattr y hy hd ha
+  · rfl
 
 end written
 
@@ -927,7 +916,7 @@ example :
     let es := allEntries gs []
     let L := layoutOf x (layout.map fun l => (l.1.spec, packGroup toyEnc l.1 l.2)) [] {}
     WellFormed L ∧ (∀ l ∈ layout, l.1.wf ∧ streamCount l.2 ≥ 1)
-    ∧ (∀ i (h : i < es.length), es[i].isDir = false → (attrsParsed {} (es.map (specEntry x))).getD i 0 &&& 0x10 = 0)
+    ∧ (∀ y ∈ es, y.isDir = false → ({} : Opts).attrs = true → (x y).1 &&& 0x10 = 0)
     ∧ (∀ y ∈ es, y.isDir = true → y.data = []) ∧ (es.map (·.name)).Nodup := by
   refine ⟨by decide, ?_, by decide, by decide, by decide⟩
   intro l hl
